@@ -56,6 +56,8 @@ func (s *S) name(pool []string) sv[builder.IdentExp] {
 		str = hostilePool[s.n(len(hostilePool))]
 	} else if s.chance(NearRate / 3) {
 		str = nearIdents[s.n(len(nearIdents))]
+	} else if s.chance(NearRate / 3) {
+		str = typePool[s.n(len(typePool))]
 	}
 	return sv[builder.IdentExp]{qrb.N(str), fmt.Sprintf("qrb.N(%q)", str)}
 }
@@ -189,6 +191,8 @@ func (s *S) exp(depth int) sv[builder.Exp] {
 			t = hostileTypes[s.n(len(hostileTypes))]
 		} else if s.chance(NearRate) {
 			t = nearTypes[s.n(len(nearTypes))]
+		} else if s.chance(NearRate) {
+			t = identPool[s.n(len(identPool))]
 		}
 		return sv[builder.Exp]{l.V.Cast(t), fmt.Sprintf("%s.Cast(%q)", l.P, t)}
 	case 7:
